@@ -421,6 +421,12 @@ class ModelMixin3:
                 s3 = st.copy()
                 outs.append((self.exc('UnicodeDecodeError', s3, node, 'the file is not valid text in the chosen encoding'), s3))
             return outs
+        if name == 'itertools.accumulate':
+            ini = kwargs.get('initial')
+            if isinstance(ini, Ref) and ini.kind == 'idx':
+                # running positions built from an index and a sequence of increments: the index typestate cannot follow
+                # this (which increment belongs to which insertion); no verdict rather than a guess
+                raise AnalysisError('child positions computed with itertools.accumulate(..., initial=<index>) are outside the index abstraction')
         if name == 'itertools.repeat' and len(args) == 1 and not kwargs:
             return [(Ref('list', st.new(ListE('repeat', 2, None, items=(args[0],), stages=('itertools.repeat',)))), st)]
         if name == 'itertools.count' and len(args) <= 2 and not kwargs:
